@@ -391,6 +391,17 @@ def c16(ctx: Ctx) -> None:
             sub_ok = all(find_path(g, [cr], [x], edge_ok=_nonexc) is not None for x in fut + [cb])
             okp = okp and one and wj is None and bool(joins) and sub_ok
             desc = f'{norm(cr.ast)} joined by {sorted({norm(j.ast)[:40] for j in joins})}'
+        # ... and not before the elements were consumed: joining the worker first (a `with` that ends before the consumer loop)
+        # waits, on the consumer's thread - the event loop's, in the async bridge - until the producer is through
+        heads_ = [n for n in g.nodes if n.kind == 'loop_head' and not n.meta.get('deferred') and not n.meta.get('inlined')]
+        early = None
+        for j_ in [n for n in g.nodes if (n.kind == 'with_exit' and n.meta.get('how') == 'normal' and any(n.meta['item'].context_expr is cr_.ast for cr_ in creations))]:
+            early = early or find_path(g, [j_], heads_, edge_ok=_nonexc)
+        if creations and heads_:
+            ctx.check('C16-TA6', f'{fname}: the pool is not joined before the consumer loop', f'{A}:{f.lineno}', early is None,
+                      'the worker is joined once the elements are through', 'the with-block of the pool ends before the consumer loop: leaving it waits for the producer '
+                      'to finish while nothing consumes - the event loop is blocked for the whole iteration (async bridge), laziness is gone',
+                      witness=render(g, early), construct=construct_key(fname, 'pool joined before the consumer loop'))
         ctx.check('C16-TA6', f'{fname}: {desc}: every exit after creating the pool joins its worker', f'{A}:{f.lineno}', okp,
                   'leaving the generator joins the single worker', 'the helper thread can outlive the iteration (executor not scoped around it)',
                   witness=render(g, wj), construct=construct_key(fname, 'executor scope'))
@@ -834,6 +845,8 @@ def c17(ctx: Ctx) -> None:
         fdef = [n for n in g3.nodes if n.kind == 'store_name' and isinstance(n.meta.get('value'), ast.Call) and isinstance(n.meta['value'].func, ast.Attribute)
                 and n.meta['value'].func.attr == 'submit']
         okj = bool(joins) and bool(fdef) and norm(joins[0].ast.func.value) == fdef[0].meta['name']
+        # (a join with a timeout is a join that may not have happened: the stopper would return with the loop still running)
+        okj = okj and not any(j_.ast.args or j_.ast.keywords for j_ in joins)
         w = must_pass(g4, [g4.entry], [g4.exit], joins, edge_ok=_nonexc)
         w2 = must_pass(g4, [g4.entry], joins, ts_, edge_ok=_nonexc) if joins else None
         ctx.check('C17-R6', f'{stopper.qualname}: {[norm(n.ast) for n in ts_ + joins]}', f'{A}:{stopper.lineno}',
@@ -1195,6 +1208,21 @@ def c18(ctx: Ctx) -> None:
                 ctx.violation('C18-R8', f'{sc.qualname}: {norm(x)}', f'{IT}:{x.lineno}',
                               'elements are buffered in a bounded deque: when one result runs ahead by more than the bound, the elements the other '
                               'result has not read yet are evicted', construct=construct_key(sc.qualname, 'bounded buffer'))
+    # ... and a third: a lock.  The two results are pulled from arbitrary places - from inside one another when splits are nested,
+    # from different threads one after the other - and a lock taken around a pull (or held across a yield) turns those into a
+    # deadlock; the module has no lock today and the property needs none
+    imported_locks = {al.asname or al.name for st in ast.walk(uI.tree) if isinstance(st, ast.ImportFrom) and st.module == 'threading'
+                      for al in st.names if al.name in ('Lock', 'RLock', 'Condition', 'Semaphore', 'BoundedSemaphore')}
+    lock_uses = [x for x in ast.walk(uI.tree) if isinstance(x, ast.Call) and (
+        (isinstance(x.func, ast.Name) and x.func.id in imported_locks) or
+        (isinstance(x.func, ast.Attribute) and x.func.attr in ('Lock', 'RLock', 'Condition', 'Semaphore') and isinstance(x.func.value, ast.Name)
+         and x.func.value.id in ('threading', '_threading')))]
+    for x in lock_uses[:1]:
+        n8 += 1
+        ctx.violation('C18-R8', f'{norm(x)} in {IT}', f'{IT}:{x.lineno}',
+                      'pulls from the results of split are serialised by a lock: a split whose source is a result of another split re-enters it '
+                      '(a plain Lock never returns), a lock held across a yield belongs to the thread that pulled first - the other result blocks for ever there',
+                      construct=construct_key('split', 'lock around the pulls'))
     if not n8:
         ctx.holds('C18-R8', f'{[sc.qualname for sc in reach_ if sc is not f] or "no package helper under split"}', where, examined=max(1, len(reach_)))
     # R5
@@ -1288,6 +1316,15 @@ def dangerous_hits(tree: ast.AST, aliases: Dict[str, str]) -> List[Tuple[int, st
     return hits
 
 
+def _dotted(e) -> Optional[str]:
+    if isinstance(e, ast.Name):
+        return e.id
+    if isinstance(e, ast.Attribute):
+        b = _dotted(e.value)
+        return None if b is None else b + '.' + e.attr
+    return None
+
+
 def c19(ctx: Ctx) -> None:
     p = ctx.program
     from .common import rule_unbound
@@ -1304,6 +1341,14 @@ def c19(ctx: Ctx) -> None:
     kw = {a.arg: d for a, d in zip(f.node.args.kwonlyargs, f.node.args.kw_defaults)}
     sep_p, parse_p, pk_p = 'sep', 'parse', 'parse_keys'
     where = f'{PA}:{f.lineno}'
+    # the guard around the parser keeps the raw string on *any* failure: nothing may turn what is not a failure into one -
+    # a warnings filter set to 'error' makes every literal Python merely warns about (an odd backslash escape) fail, and stay raw
+    esc_ = [x for x in ast.walk(f.unit.tree) if isinstance(x, ast.Call) and (_dotted(x.func) or '').split('.')[-1] in ('simplefilter', 'filterwarnings')
+            and x.args and isinstance(x.args[0], ast.Constant) and x.args[0].value == 'error']
+    ctx.check('C19-R4', f'no warning is escalated to an error around the parser ({len(esc_)} filter call(s))', f'{PA}:{esc_[0].lineno}' if esc_ else where, not esc_,
+              'the parser fails only where it fails', 'a warnings filter turns warnings of the parser into exceptions, which the guard swallows: a string that denotes a '
+              'literal (Python only warns about its escape) is kept as raw text',
+              construct=construct_key('parse_to_dict', 'warnings escalated'))
     kids = {c.name: c for c in f.children if c.kind == 'function'}
     # pair parser: the nested function that takes a string item apart (split / partition / find + slicing)
     SPLITTERS = ('split', 'rsplit', 'partition', 'rpartition', 'find', 'rfind', 'index', 'rindex')
@@ -1863,6 +1908,26 @@ def c20(ctx: Ctx) -> None:
     ctx.check('C20-R1', f'{norm(c)}', g.loc(gcalls[0]), star and okr, 'every awaitable runs to completion; failures become values',
               'a failing awaitable propagates at once (others are abandoned) or some awaitables are not gathered',
               construct=construct_key('gather_excs', c))
+    # ... gather_excs itself raises nothing: whatever an awaitable ended with - a cancellation of that awaitable included - is a
+    # value of the gathered list, to be yielded or skipped by the filter alone
+    own_raises = [n for n in g.nodes if n.kind == 'raise' and not n.meta.get('inlined')]
+    ctx.check('C20-R3', f'gather_excs has no raise statement of its own ({len(own_raises)})', g.loc(own_raises[0]) if own_raises else where, not own_raises,
+              'results are yielded or skipped, never raised', 'a result is raised from inside the generator instead of being yielded or skipped: the failures '
+              'after it are lost and a failure the filter excludes (a cancelled child with only=ValueError) reaches the caller',
+              construct=construct_key('gather_excs', 'raises a result'))
+    # ... both entry points mean the same by "no filter": the default of the filter parameter is BaseException in each
+    for fn_ in (f, p.func(A, 'raise_first_exc')):
+        a_ = fn_.node.args
+        pos_ = a_.posonlyargs + a_.args
+        dmap = dict(zip([x.arg for x in pos_[len(pos_) - len(a_.defaults):]], a_.defaults))
+        dmap.update({k.arg: d for k, d in zip(a_.kwonlyargs, a_.kw_defaults) if d is not None})
+        fp_ = fn_.params[1] if len(fn_.params) > 1 else None
+        d_ = dmap.get(fp_)
+        if d_ is not None:
+            ctx.check('C20-R3', f'{fn_.name}: default filter {norm(d_)}', f'{A}:{fn_.lineno}', norm(d_) == 'BaseException',
+                      'no filter means every failure', 'the default filter is narrower than BaseException: a call without a filter silently skips '
+                      'failures that are not of that class (a cancelled child, a user BaseException), and the two entry points disagree',
+                      construct=construct_key(fn_.name, 'default filter', norm(d_)))
     # ... and they are the caller's awaitables and the caller's filter: neither parameter is re-bound (wrapping every awaitable in a
     # throttling / logging coroutine changes what runs and what its failures are), and the filter class is not refused for being
     # what the signature allows (any BaseException subclass)
